@@ -862,7 +862,8 @@ def _r5(ctx, pkg):
         def _res(name, _pkg=pkg):
             _, g_ = _pkg.resolve("Component", name)
             return g_ if name.startswith("_") and not name.startswith("__") else None
-        pflow = Flow(f, CF, resolver=_res)
+        # (a private module-level helper called by its bare name -- `_variables_of_type(self._symbols, VariableType.param)` -- is read as what it returns)
+        pflow = Flow(f, CF, resolver=_res, func_resolver=lambda name, _pkg=pkg: _pkg.functions.get((CF, name)) if name.startswith("_") else None)
         for rf in pflow.facts:
             if rf.kind == "return" and rf.value:
                 v = got(simp(rf.value))
